@@ -1,6 +1,6 @@
 """C12 - decided by spec/core/Geoh5Core.tla (TLC) + replay of the exported state graph (harness/core_replay.py)."""
 from ..core_check import make
 
-run, replay = make("C12", ["C12_quick.cfg", "C12x_quick.cfg", "C12vp_quick.cfg"], ["C12_thorough.cfg", "C12x_thorough.cfg", ("Sim_all.cfg", {"num": 150, "depth": 30})],
-                   "copies of data, objects and groups (deep and shallow, to any attached parent) followed by edits of copy and source and re-opens; after every step source and copy are compared with the specification (isomorphic subtree, remapped property groups, unchanged source)", neg=None,
+run, replay = make("C12", ["C12_quick.cfg", "C12grp_quick.cfg", "C12x_quick.cfg", "C12xd_quick.cfg", "C12ro_quick.cfg", "C12vp_quick.cfg"], ["C12_thorough.cfg", "C12x_thorough.cfg", ("Sim_all.cfg", {"num": 150, "depth": 30})],
+                   "copies of data, objects and groups (deep and shallow, to any attached parent) followed by edits of copy and source and re-opens; after every step source and copy are compared with the specification (isomorphic subtree, remapped property groups, unchanged source)", neg=None, max_paths_quick=6000,
                    concat=[("DrillholeConcatExportQuick.cfg", 21, 300)])
